@@ -725,8 +725,11 @@ class Explorer:
                     self._finish(st, 'backedge', b)
                     return
                 st.headers = st.headers | {b}
+                pre = {}
+                for l in self.loop_havoc[b][0]:
+                    pre[l] = self.load(st, self.top, (('loc', self.top.id, l), ()))
                 self._havoc(st, b)
-                st.path.events.append({'k': 'loophead', 'bb': b, 'depth': 0})
+                st.path.events.append({'k': 'loophead', 'bb': b, 'depth': 0, 'pre': pre})
             st.path.blocks.append(b)
             bl = body.blocks[b]
             self.exec_stmts(st, fr, b, bl)
